@@ -222,6 +222,22 @@ func main() {
 		json.NewEncoder(os.Stdout).Encode(map[string]interface{}{
 			"facts": f, "std_goos": sg, "std_goarch": sa, "user_goos": ug, "user_goarch": ua,
 		})
+	case "ctxtags": // one comma-separated user tag list per line ("-" = none) -> the BuildTags goCtx configures
+		sc := bufio.NewScanner(os.Stdin)
+		for sc.Scan() {
+			var tags []string
+			if t := strings.TrimSpace(sc.Text()); t != "-" && t != "" {
+				tags = strings.Split(t, ",")
+			}
+			e := gbuild.DefaultEnv()
+			e.BuildTags = tags
+			f := gbuild.VerifGoCtx(e)
+			out := strings.Join(f.BuildTags, ",")
+			if out == "" {
+				out = "-"
+			}
+			fmt.Println(out + " rel=" + strconv.Itoa(len(f.ReleaseTags)) + " cgo=" + strconv.FormatBool(f.CgoEnabled) + " " + f.GOOS + "/" + f.GOARCH + "/" + f.Compiler)
+		}
 	case "select":
 		scratch, _ := os.MkdirTemp(os.Getenv("VERIF_SCRATCH"), "gvc18-")
 		defer os.RemoveAll(scratch)
